@@ -445,3 +445,65 @@ C08_UNITS = [
 ] + _pick("C10", ("timed3", "timed4", "flag3"), "sem_") + _pick("C11", ("timed3",), "cv_") \
   + _pick("C06", ("mpsc_timed", "mpmc_timed", "mpmc_deep_timed"), "chan_") + _pick("C16", ("poll3",), "cq_")
 PROPS["C08"] = dict(assumptions=["the generator switches stacks correctly; SC memory"], units=C08_UNITS)
+
+# ---------------------------------------------------------------------------------------------
+# C01: every spawned coroutine runs exactly once; join() reports its true outcome
+# ---------------------------------------------------------------------------------------------
+def spunit(name, n=300, **params):
+    return dict(name=name, scenario="spawn", params=dict(workers=8, **params),
+                quick=dict(explore=dict(n=n), dfs=dict(max=n, pb=2)),
+                thorough=dict(explore=dict(n=10 * n), dfs=dict(max=10 * n, pb=3)))
+def manyunit(name, workers, n=40, runs=40):
+    return dict(name=name, scenario="spawn_many", params=dict(workers=workers, n=n, yields=3),
+                quick=dict(explore=dict(n=runs)), thorough=dict(explore=dict(n=20 * runs)))
+C01_UNITS = [
+    dict(name="join_spec", tlc=[("spec/l1/Join.tla", "spec/l1/MCJoin.cfg")]),
+    dict(name="sched_spec", tlc=[("spec/l1/MCSched.tla", "spec/l1/MCSched.cfg")]),
+    spunit("ret_thread", end="ret", **{"from": "thread"}, yields=2, polls=2, q_waits=True),
+    spunit("ret_co", end="ret", **{"from": "co"}, yields=2, polls=3, q_waits=False),
+    spunit("panic_thread", end="panic", **{"from": "thread"}, yields=1, polls=2, q_waits=True),
+    spunit("panic_co", end="panic", **{"from": "co"}, yields=2, polls=2, q_waits=True),
+    spunit("cancel_thread", end="cancel", **{"from": "thread"}, yields=2, polls=2, q_waits=True),
+    spunit("cancel_co", end="cancel", **{"from": "co"}, yields=1, polls=2, q_waits=True),
+    spunit("ret_custom_stack", end="ret", **{"from": "thread"}, yields=3, polls=2, q_waits=True, stack=0x4000),
+    spunit("ret_noyield", end="ret", **{"from": "co"}, yields=0, polls=3, q_waits=True),
+    manyunit("many_w1", 1), manyunit("many_w3", 3), manyunit("many_w8", 8, n=60),
+] + _pick("C14", ("plain_thread", "child_panic"), "scoped_") + _pick("C16", ("select2_co",), "cq_")
+PROPS["C01"] = dict(assumptions=["the run queues hand every task to exactly one taker (C03, C04); AbsBlocker (C02)"], units=C01_UNITS)
+
+# ---------------------------------------------------------------------------------------------
+# C17 / C18: socket I/O
+# ---------------------------------------------------------------------------------------------
+def iounit(name, n=300, **params):
+    return dict(name=name, scenario="io", params=dict(workers=8, **params),
+                quick=dict(explore=dict(n=n), dfs=dict(max=n, pb=2)),
+                thorough=dict(explore=dict(n=10 * n), dfs=dict(max=6 * n, pb=3)))
+def bulkunit(name, kind, runs=6, **params):
+    return dict(name=name, scenario="io_bulk", params=dict(workers=4, kind=kind, **params),
+                quick=dict(explore=dict(n=runs)), thorough=dict(explore=dict(n=20 * runs)))
+C17_UNITS = [
+    dict(name="iowait_spec", tlc=[("spec/l3/IoWait.tla", "spec/l3/MCIoWait.cfg")]),
+    dict(name="stream_spec", tlc=[("spec/l3/Stream.tla", "spec/l3/MCStream.cfg")]),
+    iounit("read_3_2_buf4", chunks=[3, 2], buf=4, close=True),
+    iounit("read_1x4_buf2", chunks=[1, 1, 1, 1], buf=2, close=True, n=400),
+    iounit("read_5_buf1", chunks=[5], buf=1, close=True),
+    iounit("read_noclose", chunks=[2, 3], buf=8, close=False),
+    iounit("read_empty_then_close", chunks=[], buf=4, close=True, n=100),
+    iounit("read_paused_writer", chunks=[2, 2, 1], buf=3, close=True, pauses=[0, 2, 1]),
+    bulkunit("bulk_unix", "unix", conns=3, size=600_000, thread_reader=True),
+    bulkunit("bulk_tcp", "tcp", conns=3, size=900_000, thread_reader=True),
+    bulkunit("bulk_tcp_many", "tcp", conns=12, size=120_000),
+    bulkunit("dgram_udp", "udp", conns=2),
+    bulkunit("dgram_unix", "udg", conns=2),
+]
+PROPS["C17"] = dict(assumptions=["the kernel delivers socket data and edge-triggered epoll events as documented"], units=C17_UNITS)
+C18_UNITS = [
+    # the hand-over between an expiring io timer and an early completion on another worker: known finding F15
+    dict(name="io_timer_race_spec", tlc=[("spec/l3/IoTimerRace.tla", "spec/l3/MCIoTimerRace.cfg")], tlc_expect_error="NothingBad is violated"),
+    iounit("timeout_then_data", chunks=[2, 2], buf=4, close=True, read_timeout=2, pauses=[0, 3], n=250),
+    iounit("stale_timer", chunks=[2, 2], buf=4, close=True, read_timeout=3, pauses=[1, 4], n=250),
+    iounit("data_in_time", chunks=[1, 1, 1], buf=2, close=True, read_timeout=5, pauses=[1, 1, 1], n=250),
+    iounit("cancel_blocked_read", chunks=[3, 2], buf=2, close=False, victims=["r"]),
+    iounit("cancel_timed_read", chunks=[2], buf=2, close=False, victims=["r"], read_timeout=4, pauses=[2], n=200),
+]
+PROPS["C18"] = dict(assumptions=["virtual clock for the io timers; the fd is served by one selector"], units=C18_UNITS)
